@@ -72,6 +72,7 @@ fn main() {
         ("gen", "C04") => c04::gen(&mut ctx),
         ("gen", "C05") => c05::gen(&mut ctx),
         ("gen", "C08") => c08::gen(&mut ctx),
+        ("gen", "C08dbg") => c08::boundary(&mut ctx),
         ("gen", "C11") => c11::gen(&mut ctx),
         ("gen", "C02") => c02::gen(&mut ctx),
         ("gen", "C03") => c03::gen(&mut ctx),
